@@ -22,7 +22,9 @@
 
 #include <tbox/base/cabinet.hpp>
 #include <tbox/base/object_pool.hpp>
-#include <tbox/event/forward.h>
+#include <map>
+
+#include <tbox/event/loop.h>
 
 #include "../terminal.h"
 #include "node.h"
@@ -101,6 +103,9 @@ class Terminal::Impl {
     NodeToken root_token_;
 
     std::string welcome_text_;
+
+    //! exit tasks waiting in the loop: they use this object, ~Impl() cancels them
+    std::map<SessionToken, event::Loop::RunId> exit_tasks_;
 };
 
 }
